@@ -18,6 +18,7 @@ S13 the one-node re-typers check_or_constrain_* are only the leaf case of constr
 S14 inside a collection an unspecified number type is only re-typed in place to a number type of the same (32-bit) width
 S15 zero-sized types and empty arrays: no division by a type width, no trapping `element count - constant` in the lowering
 S16 a function whose parameters have no bits is refused before the circuit is built (`some input bit`)
+S17 a re-typed match / if takes over the type of its branches only when all branch types compared equal
 S12 the number type stored in a Range node (which the lowering sizes the elements with) follows the re-typing of the range
 """
 from .. import mir
@@ -631,6 +632,23 @@ def rule_s15(ctx):
             for (r, p) in body.trace(op["place"]):
                 if r[0] == "call" and mir.last_seg(str(r[2])) == "size_in_bits_for_defs" and not p:
                     kinds.add("width")
+                elif len(p) >= 2 and tuple(p[-2:]) in (("as Array", "1"),):
+                    kinds.add("count")          # the length written in an array type
+                elif r[0] == "agg" and depth > 0 and len(p) == 2 and p[0].startswith("as ") and p[1].isdigit():
+                    rv = body.blocks[r[1]]["stmts"][r[2]]["rv"]
+                    if rv.get("variant") != p[0][3:]:
+                        continue                # another variant was stored here: this origin cannot be read through `as <variant>`
+                    k = kind_of(rv["ops"][int(p[1])], depth - 1) if int(p[1]) < len(rv["ops"]) else None
+                    if k is None:
+                        return None
+                    kinds.add(k)
+                elif r[0] == "call" and mir.last_seg(str(r[2])) in ("unwrap", "expect") and not p and depth > 0 and \
+                        any(rr[0] == "call" and mir.last_seg(str(rr[2])) == "get" and "HashMap" in str(rr[2]) for (rr, pp) in body.trace_operand(body.term(r[1])["args"][0])) and \
+                        body.term(r[1])["dest"]["ty"] in ("&usize", "usize"):
+                    kinds.add("count")          # const_sizes.get(size).unwrap()
+                elif r[0] == "call" and mir.last_seg(str(r[2])) == "get" and "HashMap" in str(r[2]) and tuple(p) == ("as Some", "0") and \
+                        "usize" in body.term(r[1])["dest"]["ty"] and "String" in body.term(r[1])["dest"]["ty"] + str(body.term(r[1])["func"].get("substs")):
+                    kinds.add("count")          # the size of a const-sized array
                 elif r[0] == "call" and mir.last_seg(str(r[2])) in ("expect", "unwrap") and tuple(p) in (("0",), ("1",)):
                     c = body.term(r[1])
                     if any(rr[0] == "call" and mir.last_seg(str(rr[2])) == "unwrap_array_size" for (rr, pp) in body.trace_operand(c["args"][0])):
@@ -692,6 +710,9 @@ def rule_s15(ctx):
                 if any(kind_of(d) == "width" for d in divisors):
                     res.bad(Finding("S15", f["id"], "division by the width of a type",
                                     "the divisor is the number of bits of a type, which is 0 for zero-sized types: `let mut a = [Z {}; 3]; a[0] = Z {};` panics in the compiler", sp))
+                elif any(kind_of(d) == "count" for d in divisors):
+                    res.bad(Finding("S15", f["id"], "division by a number of array elements",
+                                    "the divisor is the length of an array, which can be 0: `pub fn main(x: [u8; 0]) -> ..` panics in the compiler instead of being refused", sp))
                 else:
                     res.ok({"site": "%s at line %d" % (kind, sp[1]), "verdict": "divisor is not a type width"})
             elif kind.startswith("Overflow(Sub") and len(ops) == 2 and ops[1]["k"] == "const" and isinstance(ops[1].get("val"), int) and ops[1]["val"] >= 1:
@@ -741,5 +762,65 @@ def rule_s16(ctx):
     return res
 
 
+def rule_s17(ctx):
+    """A `match` / `if` whose branches are re-typed takes over their type only if they all ended up with the same type (a branch that
+    is a variable holding a collection of untyped numbers may keep its type, S14); taking the first branch's type regardless lets
+    the node claim a wider type than one of its branches supplies wires for."""
+    from . import C02
+    res = RuleResult("S17", "a re-typed match / if takes the type of its branches only when all branches agree")
+    fid = "check::constrain_type"
+    body = ctx.body(fid)
+    for variant in ("Match", "If"):
+        succ = body.pruned_succ({C02.INNER: variant})
+        region = set(body.reachable([0], succ=succ))
+        if len(region) == len(body.reachable([0])):
+            raise AnchorMissing("S17: cannot isolate the %s arm of constrain_type" % variant)
+        writes = []
+        for b in region:
+            if body.blocks[b]["cleanup"]:
+                continue
+            for st in body.blocks[b]["stmts"]:
+                pl = st.get("place") or {}
+                if st["k"] == "assign" and pl.get("l") == 1 and [e["k"] for e in pl["p"]] == ["deref", "field"] and pl["p"][1].get("name") == "ty":
+                    writes.append((b, st))
+        if not writes:
+            res.ok({"construct": variant, "verdict": "the node's type is not overwritten from a branch"})
+            continue
+        # edges on which all branch types were found equal
+        edges = set()
+        for sb in region:
+            t = body.term(sb)
+            if not t or t["k"] != "switch" or t["discr"]["k"] not in ("copy", "move") or not all(v == 0 for v, _ in t["targets"]):
+                continue
+            for (r, p) in body.trace(t["discr"]["place"], through={}):
+                if r[0] != "call":
+                    continue
+                c = body.term(r[1])
+                decl = c["func"].get("declared")
+                if decl == "std::cmp::PartialEq::eq" and "ast::Type" in "".join(c["func"].get("substs") or []):
+                    edges.add((sb, t["otherwise"]))
+                elif decl == "std::cmp::PartialEq::ne" and "ast::Type" in "".join(c["func"].get("substs") or []):
+                    for v, x in t["targets"]:
+                        edges.add((sb, x))      # `a != b` is false
+                elif mir.last_seg(str(r[2])) == "all":
+                    # the predicate compares types
+                    for a in c["args"][1:]:
+                        if a["k"] in ("copy", "move"):
+                            for (rr, pp) in body.trace(a["place"], through={}):
+                                if rr[0] == "agg":
+                                    clo = body.blocks[rr[1]]["stmts"][rr[2]]["rv"].get("closure")
+                                    if clo and ctx.has_fn(clo) and any(tt["func"].get("declared") == "std::cmp::PartialEq::eq" and "ast::Type" in "".join(tt["func"].get("substs") or [])
+                                                                          for _, tt in ctx.body(clo).calls()):
+                                        edges.add((sb, t["otherwise"]))
+        for (b, st) in writes:
+            if edges and C02._dominated_by_edges(body, edges, b):
+                res.ok({"construct": variant, "write": "line %d" % st["sp"][1], "verdict": "only after all branch types compared equal"})
+            else:
+                res.bad(Finding("S17", fid, "%s takes the type of one branch without comparing the branches" % variant,
+                                "the node's type is overwritten with a branch type on a path on which the branch types were not found equal: `match b { true => (3, 4), false => t }` "
+                                "(t a variable holding `(1, 2)`) as (u64, u64) is accepted with 64 wires in one clause", st["sp"]))
+    return res
+
+
 def run(ctx):
-    return ctx.run_rules([rule_s1, rule_s2, rule_s3, rule_s4, rule_s5, rule_s6, rule_s7, rule_s8, rule_s9, rule_s10, rule_s11, rule_s12, rule_s13, rule_s14, rule_s15, rule_s16])
+    return ctx.run_rules([rule_s1, rule_s2, rule_s3, rule_s4, rule_s5, rule_s6, rule_s7, rule_s8, rule_s9, rule_s10, rule_s11, rule_s12, rule_s13, rule_s14, rule_s15, rule_s16, rule_s17])
